@@ -3,6 +3,7 @@
 mod compile;
 mod exec;
 mod heap;
+mod server;
 mod util;
 
 fn main() {
@@ -13,6 +14,11 @@ fn main() {
     "compile" => compile::main(rest),
     "heap-drive" => heap::drive(rest),
     "heap-replay" => heap::replay(rest),
+    "ts-run" => exec::ts_run::main_run(rest),
+    "ts-erase" => exec::ts_run::main_erase(rest),
+    "wasm-run" => exec::wasm_interp::main(rest),
+    "server-show" => server::show(rest),
+    "server-replay" => server::replay(rest),
     _ => {
       eprintln!("usage: vh <subcommand> ...");
       std::process::exit(2);
